@@ -36,10 +36,12 @@ type tzOpt struct {
 
 var tzOptions = []tzOpt{{"nil", nil}, {"UTC", time.UTC}, {"+05:30", zoneIST}, {"America/New_York", zoneNY}, {"Europe/London", zoneLondon},
 	// two different zones that print the same name
-	{"EST(-5h)", time.FixedZone("EST", -5*3600)}, {"EST(+10h)", time.FixedZone("EST", 10*3600)}}
+	{"EST(-5h)", time.FixedZone("EST", -5*3600)}, {"EST(+10h)", time.FixedZone("EST", 10*3600)},
+	// a zone whose daylight saving time starts AT local midnight: on that day the civil date starts at 01:00
+	{"America/Santiago", mustLoc("America/Santiago")}}
 
 // c02Twin: for every zone option the zone used for the second parse of the same message.
-var c02Twin = []int{2, 3, 4, 4, 3, 6, 5}
+var c02Twin = []int{2, 3, 4, 4, 3, 6, 5, 3}
 
 func pickIndex(name string) int {
 	for i, t := range tzOptions {
@@ -60,7 +62,7 @@ func genTripDesc(c *Ctx, p string, i int, rich bool) *gtfsrt.TripDescriptor {
 	d.RouteId = optStr(c, p+"route_id", rich, fmt.Sprintf("R%d", i), "")
 	d.DirectionId = optU32(c, p+"direction_id", rich, uint32(i%2), uint32(1-i%2), 7)
 	d.StartTime = optStr(c, p+"start_time", rich, fmt.Sprintf("0%d:08:09", i), "00:00:00", "25:10:05", "23:59:59")
-	d.StartDate = optStr(c, p+"start_date", rich, fmt.Sprintf("2024031%d", i-1), "20231105", "19700101", "20240229")
+	d.StartDate = optStr(c, p+"start_date", rich, fmt.Sprintf("2024031%d", i-1), "20231105", "19700101", "20240229", "20240908", "20240407")
 	if k := optIdx(c, p+"schedule_relationship", rich, 4); k >= 0 {
 		v := []gtfsrt.TripDescriptor_ScheduleRelationship{gtfsrt.TripDescriptor_ADDED, gtfsrt.TripDescriptor_SCHEDULED, gtfsrt.TripDescriptor_UNSCHEDULED, gtfsrt.TripDescriptor_CANCELED}[k]
 		d.ScheduleRelationship = &v
@@ -212,7 +214,8 @@ func genTranslated(c *Ctx, p string, rich bool, text string) *gtfsrt.TranslatedS
 	ts := &gtfsrt.TranslatedString{}
 	n := pick(c, p+"n", 2, 3)
 	for i := 0; i < n; i++ {
-		tr := &gtfsrt.TranslatedString_Translation{Text: sp(fmt.Sprintf("%s %d", text, i))}
+		texts := []string{fmt.Sprintf("%s %d", text, i), "", "A &amp; C trains &lt;b&gt;delayed&lt;/b&gt; &#39;now&#39; &eacute;", "http://example.com/a?id=7&region=north&copy=1&lt=2"}
+		tr := &gtfsrt.TranslatedString_Translation{Text: sp(texts[c.Choose(fmt.Sprintf("%stext%d", p, i), len(texts))])}
 		tr.Language = optStr(c, fmt.Sprintf("%slang%d", p, i), i == 0, []string{"en", "es"}[i%2], "")
 		ts.Translation = append(ts.Translation, tr)
 	}
@@ -594,7 +597,7 @@ func init() {
 	register(&Check{
 		ID:    "C02",
 		Level: "model_checking",
-		Rule: "conflict-free messages from 2 trip + 2 vehicle descriptors in 6 entity slots (TU T1, VP V1, TU T2, VP V2, alert, id-less VP), 0-3 or 7 stop time updates, every optional wire field present/absent with boundary values (timestamps 0/1/2^31/DST-gap/2100, delays incl. int32 extremes, all enum values used by the library), x Timezone option {nil, UTC, +05:30, America/New_York, Europe/London, and two fixed zones that share the name EST but not the offset}, x 3 entity orders; within k deviations (quick 2, thorough 3) of a sparse and a rich base; " +
+		Rule: "conflict-free messages from 2 trip + 2 vehicle descriptors in 6 entity slots (TU T1, VP V1, TU T2, VP V2, alert, id-less VP), 0-3 or 7 stop time updates, every optional wire field present/absent with boundary values (timestamps 0/1/2^31/DST-gap/2100, delays incl. int32 extremes, all enum values used by the library), x Timezone option {nil, UTC, +05:30, America/New_York, Europe/London, two fixed zones that share the name EST but not the offset, America/Santiago - whose DST starts at local midnight - with start dates on its switch days}, x 3 entity orders; within k deviations (quick 2, thorough 3) of a sparse and a rich base; " +
 			"every value of the surfaced wire enums; optionally every wire field the library does not surface populated (tts texts, severity, images, trip properties, modified trip, carriage details, wheelchair accessibility, departure occupancy, incrementality, NYCT header) and entities of unread kinds (shape, stop, trip_modifications) appended - nothing surfaced may change; plus messages of 1..1025 trips x 0..65 stop time updates, as many vehicles, and alerts with 1..66 selectors / periods / translations, under every zone option; " +
 			"non-trivial = distinct (message bytes, zone) with >= 2 entities; oracle = reference interpretation written from the statement",
 		Assumptions: []string{"protobuf-go Marshal/Unmarshal is trusted", "messages outside the quantifier (coinciding pool entries, empty vehicle descriptor inside a trip update) are executed for crash freedom only", "the harness embeds time/tzdata"},
